@@ -464,6 +464,12 @@ def _discharge(ob, timeout_ms=None, use_cvc5=True):
             ob.reason = "goal is the constant False on a feasible path"
         return ob
     _CANDIDATE[0] = None
+    if os.environ.get("PYVC_DUMP_DIR") and os.environ.get("PYVC_DUMP_MATCH", "") in ob.id:      # debugging aid: the query as SMT-LIB text
+        sd = z3.Solver()
+        sd.add(*ob.hyps)
+        sd.add(z3.Not(ob.goal))
+        with open(os.path.join(os.environ["PYVC_DUMP_DIR"], ob.id.replace("/", "_") + ".smt2"), "w") as fd:
+            fd.write(sd.to_smt2())
     r, model, dt, reason, solver = _solve_z3(ob.hyps, ob.goal, timeout_ms)
     ob.candidate = _CANDIDATE[0]
     ob.solver_s = dt
